@@ -24,15 +24,16 @@ instance {ε α : Type} [DecidableEq ε] [DecidableEq α] : DecidableEq (Except 
 
 /-! ### Which log lines are shown verbatim -/
 
-/-- The lines `lines` emits as `.raw`: everything that is not a record, and records whose kind is
-none of `unchanged`, `do`, `waiting`, `locked`, `unlocked`, `done` (e.g. `resumed`, or anything unknown). -/
+/-- The lines `lines` emits as `.raw`: everything that is not a record, records whose kind is
+none of `unchanged`, `do`, `waiting`, `locked`, `unlocked`, `done` (e.g. `resumed`, or anything unknown), and `done`
+records whose text is not of the form `<status> <name>` (`parseDoneText` fails: written by a script, not by redo). -/
 def isRawLine (l : List Char) : Bool :=
   match parse l with
   | .error _ => true
   | .ok g =>
     if g.kind = kUnchanged then false
     else if g.kind = kDo ∨ g.kind = kWaiting ∨ g.kind = kLocked ∨ g.kind = kUnlocked then false
-    else if g.kind = kDone then false
+    else if g.kind = kDone then (parseDoneText g.text).isNone
     else true
 
 /-- What a replay shows of a log: its raw lines, cleaned. -/
@@ -174,7 +175,7 @@ def lineStep (recurse : List Char → St → Except CErr (St × Nat)) (optU optR
       else .ok ({ st with already := fixname :: st.already }, intr, w)
     else if g.kind = kDone then
       match parseDoneText g.text with
-      | none => .error .badDone
+      | none => .ok (emit st t (.raw (cleanLine l)), intr, w + 1)
       | some (rv, name) => .ok (emit st t (.record kDone (rv ++ ' ' :: normpath (resolve t name))), intr, w + 1)
     else .ok (emit st t (.raw (cleanLine l)), intr, w + 1)
 
@@ -396,12 +397,21 @@ theorem lineStep_step {recurse : List Char → St → Except CErr (St × Nat)} {
                   (by simpa [emit] using hrr) h.symm
       · simp only [h2, if_false] at h
         by_cases h5 : g.kind = kDone
-        · have hr : isRawLine l = false := by unfold isRawLine; rw [hp]; simp [h5]
-          simp only [h5, if_true] at h
-          generalize parseDoneText g.text = pd at h
+        · simp only [h5, if_true] at h
+          generalize hpd : parseDoneText g.text = pd at h
           cases pd with
-          | none => cases h
+          | none =>
+            have hr : isRawLine l = true := by
+              unfold isRawLine; rw [hp]; dsimp only; rw [if_neg h1, if_neg h2, if_pos h5, hpd]; rfl
+            simp only [Except.ok.injEq, Prod.mk.injEq] at h
+            obtain ⟨h, -, -⟩ := h
+            subst h
+            refine Step.own [⟨t, .raw (cleanLine l)⟩] ?_ ?_ (by simp) (by simp [emit]) (Or.inl rfl) (DoSpec.raw _ _ _)
+            · intro e he; simp at he; subst he; rfl
+            · rw [hr, rawsOf_cons_raw]; rfl
           | some v =>
+            have hr : isRawLine l = false := by
+              unfold isRawLine; rw [hp]; dsimp only; rw [if_neg h1, if_neg h2, if_pos h5, hpd]; rfl
             obtain ⟨rv, name⟩ := v
             simp only [Except.ok.injEq, Prod.mk.injEq] at h
             obtain ⟨h, -, -⟩ := h
@@ -1066,9 +1076,12 @@ theorem redoLog_no_outOfFuel (F : Forest) (optU optR : Bool) (fuel : Nat) :
 
 /-! ### Extras used by the property file -/
 
+/-- `isRawLine` is exactly "not one of the records `lines` interprets": no record at all, a record of a kind `lines`
+does not know, or a `done` record whose text is not `<status> <name>`. -/
 theorem isRawLine_iff (l : List Char) :
     isRawLine l = true ↔ ∀ g, parse l = .ok g →
-      g.kind ≠ kUnchanged ∧ g.kind ≠ kDo ∧ g.kind ≠ kWaiting ∧ g.kind ≠ kLocked ∧ g.kind ≠ kUnlocked ∧ g.kind ≠ kDone := by
+      g.kind ≠ kUnchanged ∧ g.kind ≠ kDo ∧ g.kind ≠ kWaiting ∧ g.kind ≠ kLocked ∧ g.kind ≠ kUnlocked ∧
+      (g.kind = kDone → parseDoneText g.text = none) := by
   unfold isRawLine
   cases parse l with
   | error e => simp
@@ -1083,11 +1096,128 @@ theorem isRawLine_iff (l : List Char) :
         · exact h.2.2.1 e
         · exact h.2.2.2.1 e
         · exact h.2.2.2.2.1 e
-      · by_cases h5 : g.kind = kDone
-        · simp [h5]
-        · simp only [h1, h2, h5, if_false, true_iff]
-          simp only [not_or] at h2
-          exact ⟨h1, h2.1, h2.2.1, h2.2.2.1, h2.2.2.2, h5⟩
+      · rw [if_neg h1, if_neg h2]
+        simp only [not_or] at h2
+        by_cases h5 : g.kind = kDone
+        · rw [if_pos h5]
+          constructor
+          · intro h; exact ⟨h1, h2.1, h2.2.1, h2.2.2.1, h2.2.2.2, fun _ => Option.isNone_iff_eq_none.1 h⟩
+          · intro h; exact Option.isNone_iff_eq_none.2 (h.2.2.2.2.2 h5)
+        · rw [if_neg h5]
+          exact ⟨fun _ => ⟨h1, h2.1, h2.2.1, h2.2.2.1, h2.2.2.2, fun h => absurd h h5⟩, fun _ => rfl⟩
+
+/-! ### A malformed `done` record is not an error -/
+
+theorem lineStep_ne_badDone {recurse : List Char → St → Except CErr (St × Nat)}
+    (hn : ∀ x s, recurse x s ≠ .error .badDone) (optU optR : Bool) (t l : List Char) (st : St) (intr w : Nat) :
+    lineStep recurse optU optR t l st intr w ≠ .error .badDone := by
+  have key : ∀ (x : List Char) (s : St) (k : St → Nat → St × Nat × Nat),
+      (match recurse x s with
+        | .error e => .error e
+        | .ok (s', got) => .ok (k s' got) : Except CErr (St × Nat × Nat)) ≠ .error .badDone := by
+    intro x s k
+    have := hn x s
+    generalize recurse x s = rr at this
+    cases rr with
+    | error e => intro h; simp only [Except.error.injEq] at h; exact this (h ▸ rfl)
+    | ok v => intro h; cases h
+  unfold lineStep
+  generalize parse l = p
+  cases p with
+  | error e => intro h; cases h
+  | ok g =>
+    dsimp only
+    by_cases h1 : g.kind = kUnchanged
+    · simp only [h1, if_true]
+      cases optU
+      · simp only [Bool.false_eq_true, if_false]
+        intro h; cases h
+      · simp only [if_true]
+        cases optR
+        · simp only [Bool.false_eq_true, if_false]
+          intro h; cases h
+        · simp only [if_true]
+          exact key _ _ (fun s' got => ({ s' with already := normpath (resolve t g.text) :: s'.already }, intr + got, w + got))
+    · simp only [h1, if_false]
+      by_cases h2 : g.kind = kDo ∨ g.kind = kWaiting ∨ g.kind = kLocked ∨ g.kind = kUnlocked
+      · simp only [h2, if_true]
+        by_cases h3 : normpath (resolve t g.text) ∈ st.already
+        · simp only [h3, if_true]
+          cases optR
+          · simp only [Bool.false_eq_true, if_false]
+            intro h; cases h
+          · simp only [if_true]
+            by_cases h4 : g.text.isEmpty = true
+            · simp only [h4, if_true]
+              intro h; cases h
+            · simp only [h4, Bool.false_eq_true, if_false]
+              exact key _ _ (fun s' got => ({ s' with already := normpath (resolve t g.text) :: s'.already }, intr + got, w + got))
+        · simp only [h3, if_false]
+          cases optR
+          · simp only [Bool.false_eq_true, if_false]
+            intro h; cases h
+          · simp only [if_true]
+            by_cases h4 : g.text.isEmpty = true
+            · simp only [h4, if_true]
+              intro h; cases h
+            · simp only [h4, Bool.false_eq_true, if_false]
+              exact key _ _ (fun s' got => ({ s' with already := normpath (resolve t g.text) :: s'.already }, intr + 1 + got, w + 1 + got))
+      · simp only [h2, if_false]
+        by_cases h5 : g.kind = kDone
+        · simp only [h5, if_true]
+          cases parseDoneText g.text with
+          | none => intro h; cases h
+          | some v => intro h; cases h
+        · simp only [h5, if_false]
+          intro h; cases h
+
+theorem lines_ne_badDone {recurse : List Char → St → Except CErr (St × Nat)}
+    (hn : ∀ x s, recurse x s ≠ .error .badDone) (optU optR : Bool) (t : List Char) :
+    ∀ (ls : List (List Char)) (st : St) (intr w : Nat), lines recurse optU optR t ls st intr w ≠ .error .badDone
+  | [], st, intr, w => by rw [lines_nil]; intro h; cases h
+  | l :: ls, st, intr, w => by
+    rw [lines_cons]
+    have h1 := lineStep_ne_badDone hn optU optR t l st intr w
+    generalize lineStep recurse optU optR t l st intr w = r at h1
+    cases r with
+    | error e =>
+      dsimp only
+      intro h
+      simp only [Except.error.injEq] at h
+      exact h1 (h ▸ rfl)
+    | ok v =>
+      obtain ⟨st1, i1, w1⟩ := v
+      exact lines_ne_badDone hn optU optR t ls st1 i1 w1
+
+theorem catlog_ne_badDone (F : Forest) (optU optR : Bool) :
+    ∀ (fuel : Nat) (t : List Char) (st : St), catlog F optU optR fuel t st ≠ .error .badDone
+  | 0, _, _ => by rw [catlog]; intro h; cases h
+  | fuel + 1, t, st => by
+    rw [catlog]
+    by_cases ht : normpath t ∈ st.already
+    · rw [if_pos ht]; intro h; cases h
+    · rw [if_neg ht]
+      dsimp only
+      generalize lookup F (normpath t) = r
+      cases r with
+      | none => intro h; cases h
+      | some v =>
+        cases v with
+        | none => intro h; cases h
+        | some ls => exact lines_ne_badDone (catlog_ne_badDone F optU optR fuel) optU optR t (unglue ls) _ 0 0
+
+theorem redoLog_ne_badDone (F : Forest) (optU optR : Bool) (fuel : Nat) :
+    ∀ (ts : List (List Char)) (st : St), redoLog F optU optR fuel ts st ≠ .error .badDone
+  | [], st => by rw [redoLog]; intro h; cases h
+  | t :: ts, st => by
+    rw [redoLog]
+    have h1 := catlog_ne_badDone F optU optR fuel t (emit st [] (.record kDo (normpath t)))
+    generalize catlog F optU optR fuel t (emit st [] (.record kDo (normpath t))) = r at h1
+    cases r with
+    | error e => intro h; simp only [Except.error.injEq] at h; exact h1 (h ▸ rfl)
+    | ok v =>
+      obtain ⟨st1, n⟩ := v
+      exact redoLog_ne_badDone F optU optR fuel ts st1
 
 /-- The first command-line target of a run from the empty state is shown completely. -/
 theorem redoLog_first {F : Forest} {optU optR : Bool} {fuel : Nat} {t : List Char} {ts : List (List Char)}
